@@ -515,6 +515,17 @@ def _run(chk, tier, replay, binary, fdir, extra_paths):
         if usable:
             order.append(usable.pop())
     nruns_planned, skipped = 0, {"sink": 0, "trunc": 0}
+    # the sink part prefers many small and medium histories (runs per history ~ 10 x file length): ascending
+    # size, every sixth slot taken from the large end; a history that does not fit is skipped, later ones may fit
+    asc = [gi for gi in sorted(order, key=lambda gi: (len(refs[gi][2]), gi)) if groups[gi][4]]
+    sink_ok, est, slot = set(), 0, 0
+    while asc:
+        slot += 1
+        gi = asc.pop() if slot % 6 == 0 else asc.pop(0)
+        cost = int((10 if step == 1 else 1.3) * len(refs[gi][2])) + 200
+        if est + cost <= run_budget:
+            sink_ok.add(gi)
+            est += cost
     for gi in order:
         g = groups[gi]
         ops, codec, page, want_trunc, want_sink = g
@@ -524,7 +535,7 @@ def _run(chk, tier, replay, binary, fdir, extra_paths):
         if want_trunc and ncuts + len(fb) > cut_budget and not is_embedded:
             want_trunc = False
             skipped["trunc"] += 1
-        if want_sink and nruns_planned + 10 * len(fb) > run_budget:
+        if want_sink and gi not in sink_ok:
             want_sink = False
             skipped["sink"] += 1
         if want_trunc:
